@@ -4,6 +4,7 @@
    consistent interleaving. *)
 From V Require Import model.Base model.Conc model.Events model.SpscQueue proofs.SpscQueueProofs.
 From V Require model.OverflowQueue proofs.OverflowQueueProofs.
+From V Require model.SpscQueueRA proofs.SpscQueueRAProofs.
 Open Scope N_scope.
 
 (* index_queue.rs / spsc/queue.rs: in every reachable state, pushed = popped ++ content and
@@ -115,3 +116,39 @@ Print Assumptions OQ.c03_oq_pop_returns_head.
 Print Assumptions OQ.c03_oq_evicted_value_stable.
 Print Assumptions OQ.c03_oq_write_slot_free.
 Print Assumptions OQ.c03_oq_nonvacuous.
+
+(* ---------------- release/acquire view model (index_queue.rs, spsc/queue.rs) ---------------- *)
+Module RA.
+Import V.model.SpscQueueRA V.proofs.SpscQueueRAProofs.
+
+(* With the memory orderings the code uses (ords_code; pinned against the implementation by
+   the trace comparison on every run), under release/acquire semantics in which every load of
+   the other side's cursor may return an arbitrarily stale value (oracle) and only an Acquire
+   load of a Release store transfers visibility: no data race on any slot cell, and FIFO
+   conservation, for every capacity >= 1, every schedule, every oracle, any number of pushes
+   and pops. *)
+Theorem c03_ra_race_free_and_conserving : forall c orc pushes pops g ls,
+  0 < c -> reachable (rstep ords_code) (rinit c orc pushes pops) (g, ls) ->
+  race g = false /\ rpushed g = rpopped g ++ rcontent g /\ (length (rcontent g) <= N.to_nat c)%nat.
+Proof. exact ra_race_free_and_conserving. Qed.
+
+(* each synchronising ordering is necessary: weakening it admits a racy execution *)
+Example c03_ra_needs_release_on_write_cursor :
+  race_after weaken_push_store 1 [7] 1 [0;0;0;0;1;1;1]%nat = true /\
+  race_after weaken_pop_load 1 [7] 1 [0;0;0;0;1;1;1]%nat = true /\
+  race_after ords_code 1 [7] 1 [0;0;0;0;1;1;1]%nat = false.
+Proof. exact ra_needs_release_on_write_cursor. Qed.
+Example c03_ra_needs_release_on_read_cursor :
+  race_after weaken_pop_store 1 [7; 8] 1 [0;0;0;0;1;1;1;1;0;0;0]%nat = true /\
+  race_after weaken_push_load 1 [7; 8] 1 [0;0;0;0;1;1;1;1;0;0;0]%nat = true /\
+  race_after ords_code 1 [7; 8] 1 [0;0;0;0;1;1;1;1;0;0;0]%nat = false.
+Proof. exact ra_needs_release_on_read_cursor. Qed.
+Example c03_ra_nonvacuous_stale_read :
+  let c := fst (run (rstep ords_code) [0;0;0;0;1;1;1;1;0;0]%nat (rinit 1 [0; 0; 5] [7; 8] 1)) in
+  rrp (fst c) = 1 /\ rat (snd c 0%nat) = RIdle /\ rpushed (fst c) = [7] /\ rpopped (fst c) = [7] /\ race (fst c) = false.
+Proof. exact ra_nonvacuous_stale_read. Qed.
+End RA.
+Print Assumptions RA.c03_ra_race_free_and_conserving.
+Print Assumptions RA.c03_ra_needs_release_on_write_cursor.
+Print Assumptions RA.c03_ra_needs_release_on_read_cursor.
+Print Assumptions RA.c03_ra_nonvacuous_stale_read.
